@@ -254,6 +254,11 @@ class Exec(Engine):
         out = []
         for s, v in self.ev(e.operand, st):
             if _isR(v): out.append((s, v)); continue
+            if isinstance(v.t, OptT) and not isinstance(e.op, ast.Not):
+                outs, ok = self.guard(s, z3.Not(opt_is_none(v.t, v.z)), 'TypeError', e, 'unary operator on None')
+                out.extend(outs)
+                if ok is None: continue
+                s = ok; v = self.load_val(ok, v.t.base, opt_val(v.t, v.z))
             if isinstance(e.op, ast.Not): out.append((s, mk_bool(z3.Not(self.truth(s, v)))))
             elif isinstance(e.op, ast.USub) and v.t in (INT, BOOL): out.append((s, mk_int(-coerce(v, INT).z)))
             elif isinstance(e.op, ast.UAdd) and v.t == INT: out.append((s, v))
